@@ -1,6 +1,7 @@
 package props
 
 import (
+	"bytes"
 	"encoding/json"
 	"fmt"
 
@@ -21,6 +22,7 @@ type c06Case struct {
 	ReadSize int     `json:"read_size"`
 	Decl     int64   `json:"decl"` // declared SIZE= (-1 = absent)
 	Mode     srvMode `json:"mode"`
+	Variant  string  `json:"variant"` // message content: "" letters | xdot | dotlines
 }
 
 func init() {
@@ -69,6 +71,10 @@ func c06Run(ctx *core.Ctx) {
 							decl = decls[idx%len(decls)]
 						}
 						emit(c06Case{N: N, Size: size, Stuffed: stuffed, ReadSize: rs, Decl: decl, Mode: modes[idx%3]})
+						if !stuffed && size >= 4 {
+							emit(c06Case{N: N, Size: size, ReadSize: rs, Decl: -1, Mode: modes[idx%3], Variant: "xdot"})
+							emit(c06Case{N: N, Size: size, ReadSize: rs, Decl: -1, Mode: modes[(idx+1)%3], Variant: "dotlines"})
+						}
 					}
 				}
 				// BDAT
@@ -128,6 +134,36 @@ func c06Message(c c06Case) []byte {
 	b := make([]byte, c.Size)
 	for i := range b {
 		b[i] = 'a' + byte(i%26)
+	}
+	switch c.Variant {
+	case "xdot":
+		// ".CRLF" in the middle of a line at every fourth offset: an end-marker look-alike
+		// wherever the size budget happens to run out
+		for i := range b {
+			b[i] = "x.\r\n"[i%4]
+		}
+		if c.Chunks == nil && c.Size >= 2 {
+			b[c.Size-2], b[c.Size-1] = '\r', '\n'
+			if c.Size >= 3 && b[c.Size-3] == '\n' {
+				b[c.Size-3] = 'y' // no empty-looking "." line before the end
+			}
+		}
+		return b
+	case "dotlines":
+		// every line starts with a dot (dot-stuffed on the wire): stuffed and unstuffed sizes differ
+		for i := range b {
+			b[i] = ".a\r\n"[i%4]
+		}
+		if c.Chunks == nil && c.Size >= 2 {
+			b[c.Size-2], b[c.Size-1] = '\r', '\n'
+			if c.Size >= 3 && b[c.Size-3] == '\n' {
+				b[c.Size-3] = 'y'
+			}
+			if c.Size >= 4 && b[c.Size-3] == '.' && b[c.Size-4] == '\n' {
+				b[c.Size-3] = 'z'
+			}
+		}
+		return b
 	}
 	// keep lines short: the line-length limit is not this property's subject
 	for i := 60; i+1 < c.Size; i += 62 {
@@ -227,9 +263,12 @@ func c06One(c c06Case, limit int64) c06Outcome {
 			o.err = fmt.Errorf("DATA not accepted: %v %v", r, err)
 			return done()
 		}
-		stream := append([]byte{}, msg...)
-		if c.Stuffed {
-			stream = append([]byte{'.'}, stream...)
+		var stream []byte
+		for _, line := range bytes.SplitAfter(msg, []byte("\r\n")) {
+			if len(line) > 0 && line[0] == '.' {
+				stream = append(stream, '.')
+			}
+			stream = append(stream, line...)
 		}
 		stream = append(stream, ".\r\n"...)
 		p.Send(stream)
@@ -273,7 +312,7 @@ func c06One(c c06Case, limit int64) c06Outcome {
 
 func c06Exec(ctx *core.Ctx, c c06Case) {
 	near := int64(c.Size) >= c.N-2
-	ctx.Eval(fmt.Sprintf("%d|%d|%v|%v|%d|%d|%s", c.N, c.Size, c.Chunks, c.Stuffed, c.ReadSize, c.Decl, c.Mode), near || c.Decl >= 0)
+	ctx.Eval(fmt.Sprintf("%d|%d|%v|%v|%d|%d|%s|%s", c.N, c.Size, c.Chunks, c.Stuffed, c.ReadSize, c.Decl, c.Mode, c.Variant), near || c.Decl >= 0)
 	o := c06One(c, c.N)
 	if o.inconcl || isWatchdog(o.err) {
 		ctx.Inconclusive("C06 watchdog")
@@ -282,7 +321,7 @@ func c06Exec(ctx *core.Ctx, c c06Case) {
 	ctx.Add("octets_compared", int64(len(o.read)))
 	ctx.Add("replies_parsed", int64(len(o.finals)+4))
 	fail := func(sig, msg string) {
-		ctx.Violate(sig, msg+fmt.Sprintf(" [N=%d size=%d chunks=%v stuffed=%v read=%d decl=%d mode=%s]", c.N, c.Size, c.Chunks, c.Stuffed, c.ReadSize, c.Decl, c.Mode), c, o.log)
+		ctx.Violate(sig, msg+fmt.Sprintf(" [N=%d size=%d chunks=%v stuffed=%v read=%d decl=%d mode=%s variant=%s]", c.N, c.Size, c.Chunks, c.Stuffed, c.ReadSize, c.Decl, c.Mode, c.Variant), c, o.log)
 	}
 	// declared SIZE
 	if c.Decl > c.N {
